@@ -1,3 +1,4 @@
+import TemplVerif.Generated.Skeletons
 import TemplVerif.Model.Registry
 import TemplVerif.Proofs.Registry
 import TemplVerif.Proofs.Prefix
@@ -68,5 +69,19 @@ example :
     let body : Ast.Nodes := .cons (.element [97] h .nil .none false false) (.cons (.element [98] h .nil .none false false) .nil)
     let env : Sem.Env := [([104], { keys := [], val := .script [102] [70] [99] })]
     (Denote.run body env).scripts = [[102]] ∧ (Denote.run body env).err = false := by decide
+
+-- BEGIN transcription pins (written by tools/mkpins.py)
+/-- T1, transcription pins: the control structure and calls (extract/skeleton.go) of the functions whose models
+    were written by hand are the ones the models were transcribed from:
+      runtime.go renderCSSItemsToBuilder
+      once.go OnceHandle.Once
+      scripttemplate.go RenderScriptItems
+    A change of what one of them calls or how it branches breaks this theorem; the check then searches for a
+    failing input and reports either that or `no-failing-input-found`. -/
+theorem C12_transcription_pinned :
+    Generated.skel_css_renderCSSItemsToBuilder = 1876615113353596996 ∧
+    Generated.skel_once_Once = 9985271697375722017 ∧
+    Generated.skel_script_RenderScriptItems = 15815696188857998883 := by decide
+-- END transcription pins
 
 end TemplVerif.Props.C12
